@@ -225,6 +225,20 @@ func docxAlphabet() []docxKind {
 			xt := &xTable{3, 2, []xCell{{0, 0, 2, 1, pa}, {0, 1, 1, 1, pb}, {1, 1, 1, 1, pc}, {2, 0, 1, 1, pd}, {2, 1, 1, 1, pe}}}
 			return []docxw.Block{t}, []xBlock{{kind: kTable, tbl: xt, feat: "vmerge"}}
 		}},
+		{"tvm3", []string{"vmerge"}, func(g *gen, o docxOpt) ([]docxw.Block, []xBlock) {
+			// vMerge group of three rows: [A restart][B] / [continue][C] / [continue][D] / [E][F]
+			a, pa := cellP(g, 1)
+			a.VMerge = docxw.VMergeRestart
+			b, pb := cellP(g, 1)
+			cont := docxw.Cell{VMerge: docxw.VMergeContinue}
+			c, pc := cellP(g, 1)
+			d, pd := cellP(g, 1)
+			e, pe := cellP(g, 1)
+			f, pf := cellP(g, 1)
+			t := docxw.Table{Cols: 2, Rows: []docxw.Row{{Cells: []docxw.Cell{a, b}}, {Cells: []docxw.Cell{cont, c}}, {Cells: []docxw.Cell{cont, d}}, {Cells: []docxw.Cell{e, f}}}}
+			xt := &xTable{4, 2, []xCell{{0, 0, 3, 1, pa}, {0, 1, 1, 1, pb}, {1, 1, 1, 1, pc}, {2, 1, 1, 1, pd}, {3, 0, 1, 1, pe}, {3, 1, 1, 1, pf}}}
+			return []docxw.Block{t}, []xBlock{{kind: kTable, tbl: xt, feat: "vmerge"}}
+		}},
 		{"tblk", []string{"block-merge"}, func(g *gen, o docxOpt) ([]docxw.Block, []xBlock) {
 			// row 1: [A 2x2 block: gridSpan 2 + vMerge restart][B]
 			// row 2: [continuation gridSpan 2][C]
